@@ -126,3 +126,4 @@ Definition c05w_chk : checker := fun now d dir ob =>
   | _ => []
   end.
 Definition C05w_mon := mon c05w_chk.
+
